@@ -102,3 +102,35 @@ Definition hyp_some_cf_generic (c : c05_case) : bool :=
   existsb (fun kd : nat * sdef => cf_def c (fst kd) (snd kd) &&
                                   existsb (fun p : string * bool => negb (snd p)) (sd_params (snd kd)) &&
                                   Nat.leb 2 (List.length (insts_of c (fst kd)))) (defs_indexed c).
+
+(** finding F16: a [Cow] nested DIRECTLY in a [Cow] is looked through only one level
+    (mod.rs:344-354 uses `if`, not a loop): the generator emits  <alloc>::borrow::Cow<T>  *)
+Fixpoint has_cow_cow (t : src) : bool :=
+  match t with
+  | SCow (SCow _) => true
+  | SApp _ args => (fix go (l : list src) := match l with [] => false | x :: l' => has_cow_cow x || go l' end) args
+  | STup ts => (fix go (l : list src) := match l with [] => false | x :: l' => has_cow_cow x || go l' end) ts
+  | SVec t | SVecDeque t | SArray _ t | SCompactT t | SBox t | SOpt t | SBTreeSet t | SCow t | SRange t => has_cow_cow t
+  | SRes a b | SBTreeMap a b => has_cow_cow a || has_cow_cow b
+  | SParam _ | SPrimT _ | SBitVec _ _ => false
+  end.
+
+Definition known_F16 (c : c05_case) : bool :=
+  existsb (fun d => existsb has_cow_cow (def_field_types d)) (pg_defs (c5_prog c)) &&
+  (* every definition whose item differs from the expectation has such a field *)
+  match tg_gen (c5_tg c) with
+  | OOk toks =>
+      match parse_module toks with
+      | None => false
+      | Some m =>
+          forallb (fun kd : nat * sdef =>
+                     if cf_def c (fst kd) (snd kd) then
+                       match lookup_item m (sd_path (snd kd)) with
+                       | Some it => pitem_eqb (strip_item it) (expected_of c (snd kd)) ||
+                                    existsb has_cow_cow (def_field_types (snd kd))
+                       | None => false
+                       end
+                     else true) (defs_indexed c)
+      end
+  | _ => false
+  end.
